@@ -1149,4 +1149,107 @@ Section Real.
     rewrite init_nv in H. exact H.
   Qed.
 
+  (* ---- superposition ------------------------------------------------------------------------------------ *)
+  Fixpoint select {A} (m : list bool) (l : list A) : list A :=
+    match m, l with
+    | b :: m', x :: l' => if b then x :: select m' l' else select m' l'
+    | _, _ => []
+    end.
+
+  Lemma select_map {A B} (f : A -> B) m : forall l, select m (map f l) = map f (select m l).
+  Proof.
+    induction m as [|b m IH]; intros l; [reflexivity|]. destruct l as [|x l]; [reflexivity|].
+    cbn [select map]. rewrite IH. destruct b; reflexivity.
+  Qed.
+
+  Lemma rsum_select {A} (f : A -> R) m : forall l, length m = length l ->
+    rsum (map f l) = rsum (map f (select m l)) + rsum (map f (select (map negb m) l)).
+  Proof.
+    induction m as [|b m IH]; intros l H; destruct l as [|x l]; try discriminate; [cbn; lra|].
+    cbn [select map rsum length] in *. rewrite (IH l ltac:(lia)). destruct b; cbn [negb map rsum]; lra.
+  Qed.
+
+  Lemma EN_select m (bs : list bias) : length m = length bs ->
+    EN bs = EN (select m bs) + EN (select (map negb m) bs).
+  Proof. intros H. unfold EN. apply rsum_select; exact H. Qed.
+
+  Lemma VF_select m (bs : list bias) i : length m = length bs ->
+    VF bs i = VF (select m bs) i + VF (select (map negb m) bs) i.
+  Proof. intros H. unfold VF. apply rsum_select; exact H. Qed.
+
+  Lemma CF_select m (bs : list bias) xs nv k : length m = length bs ->
+    CF bs xs nv k = CF (select m bs) xs nv k + CF (select (map negb m) bs) xs nv k.
+  Proof.
+    intros H. unfold CF. rewrite <- rsum_map_add. apply rsum_map_ext. intros i _.
+    rewrite (VF_select m bs i H). lra.
+  Qed.
+
+  Definition sel_out (m : list bool) (t : sout) : sout := let '(it, bs, xs) := t in (it, select m bs, xs).
+
+  Lemma btrace_select nv m evs : forall it first (bs : list bias),
+    btrace nv (it, first, select m bs) evs = map (sel_out m) (btrace nv (it, first, bs) evs).
+  Proof.
+    induction evs as [|ev r IH]; intros it first bs; [reflexivity|].
+    cbn [btrace]. destruct ev as [xs|xs|id on]; cbn [bstep app map sel_out].
+    - rewrite <- select_map, IH. reflexivity.
+    - rewrite <- select_map, IH. reflexivity.
+    - rewrite <- select_map, IH. reflexivity.
+  Qed.
+
+  Lemma btrace_lengths nv evs : forall it first (bs : list bias),
+    Forall (fun t : sout => length (snd (fst t)) = length bs) (btrace nv (it, first, bs) evs).
+  Proof.
+    induction evs as [|ev r IH]; intros it first bs; [constructor|].
+    cbn [btrace]. destruct ev as [xs|xs|id on]; cbn [bstep app].
+    - constructor; [cbn; apply map_length|].
+      eapply Forall_impl; [|apply IH]. intros t Ht. rewrite Ht. apply map_length.
+    - constructor; [cbn; apply map_length|].
+      eapply Forall_impl; [|apply IH]. intros t Ht. rewrite Ht. apply map_length.
+    - eapply Forall_impl; [|apply IH]. intros t Ht. rewrite Ht. apply map_length.
+  Qed.
+
+  Inductive Forall3 {A B C} (P : A -> B -> C -> Prop) : list A -> list B -> list C -> Prop :=
+  | F3nil : Forall3 P [] [] []
+  | F3cons a b c la lb lc : P a b c -> Forall3 P la lb lc -> Forall3 P (a :: la) (b :: lb) (c :: lc).
+
+  Lemma Forall3_from2 {A B C X} (P1 : A -> X -> Prop) (P2 : B -> X -> Prop) (P3 : C -> X -> Prop)
+        (L : X -> Prop) (Q : A -> B -> C -> Prop) (f g : X -> X) (t : list X) :
+    (forall a b c x, L x -> P1 a x -> P2 b (f x) -> P3 c (g x) -> Q a b c) ->
+    forall l1 l2 l3, Forall L t -> Forall2 P1 l1 t -> Forall2 P2 l2 (map f t) -> Forall2 P3 l3 (map g t) ->
+    Forall3 Q l1 l2 l3.
+  Proof.
+    intros HQ. induction t as [|x t IH]; intros l1 l2 l3 HL H1 H2 H3.
+    - inversion H1; inversion H2; inversion H3; subst. constructor.
+    - cbn [map] in *. inversion H1 as [|a ? la ? Pa Ha]; inversion H2 as [|b ? lb ? Pb Hb];
+        inversion H3 as [|c ? lc ? Pc Hc]; inversion HL as [|? ? Lx Lt]; subst.
+      constructor; [eapply HQ; eassumption | apply IH; assumption].
+  Qed.
+
+  Definition out_add (oAB oA oB : @out R BS) : Prop :=
+    o_it oAB = o_it oA /\ o_it oAB = o_it oB /\
+    o_energy oAB = o_energy oA + o_energy oB /\
+    forall k, coord_force Rops (o_vars oAB) k = coord_force Rops (o_vars oA) k + coord_force Rops (o_vars oB) k.
+
+  Theorem superposition it0 tsfs (cfgs : list (@bias_cfg R BS)) mask evs :
+    length mask = length cfgs ->
+    Forall3 out_add
+      (run_cfg Rops fixed efix it0 tsfs cfgs evs)
+      (run_cfg Rops fixed efix it0 tsfs (select mask cfgs) evs)
+      (run_cfg Rops fixed efix it0 tsfs (select (map negb mask) cfgs) evs).
+  Proof.
+    intros Hm.
+    pose proof (run_cfg_closed it0 tsfs cfgs evs) as HAB.
+    pose proof (run_cfg_closed it0 tsfs (select mask cfgs) evs) as HA.
+    pose proof (run_cfg_closed it0 tsfs (select (map negb mask) cfgs) evs) as HB.
+    rewrite <- select_map, btrace_select in HA. rewrite <- select_map, btrace_select in HB.
+    pose proof (btrace_lengths (length tsfs) evs it0 true (map (init_bias Rops) cfgs)) as HL.
+    eapply (Forall3_from2 _ _ _ _ out_add (sel_out mask) (sel_out (map negb mask))); [|exact HL|exact HAB|exact HA|exact HB].
+    intros a b c [[it bs] xs] Lx Pa Pb Pc. cbn [sel_out out_ok fst snd] in *.
+    destruct Pa as (A1 & A2 & A3 & A4), Pb as (B1 & B2 & B3 & B4), Pc as (C1 & C2 & C3 & C4).
+    assert (Hlen : length mask = length bs) by (rewrite Lx, map_length; exact Hm).
+    unfold out_add. repeat split; try congruence.
+    - rewrite A3, B3, C3. apply EN_select; exact Hlen.
+    - intros k. rewrite A4, B4, C4. apply CF_select; exact Hlen.
+  Qed.
+
 End Real.
